@@ -2,11 +2,27 @@
 C13 — cookie values round-trip and cannot inject attributes.
 Property theorems only (helper lemmas live in Lemmas/Cookie.lean).
 
-Model: `Model/Cookie.lean` (`dumpValue`, `dumpCookie`, `parseCookie`); tables `Gen/Cookie.lean`
-are regenerated from the live `_cookie_no_quote_re`, `_cookie_slash_re`, `_cookie_slash_map`,
-`_cookie_unslash_re` on every run.
+Model: `Model/Cookie.lean` (`dumpValue`, `dumpCookie`, `parseCookie`), `Model/CookieAttrs.lean`
+(`dump_cookie`'s argument normalisation, `Response.set_cookie` / `delete_cookie`),
+`Model/CookieJar.lean` (the test client's jar); tables `Gen/Cookie.lean` (the live
+`_cookie_no_quote_re`, `_cookie_slash_re`, `_cookie_slash_map`, `_cookie_unslash_re`) and
+`Gen/CookieGlue.lean` (AST facts and small decision tables of the glue) are regenerated on every run.
+
+Clause -> theorem map (property text in /verif/properties.jsonl):
+  "any text value ... comes back unchanged ... for all of Unicode"      cookie_roundtrip, environ_roundtrip, jar_roundtrip
+  "emitted value is pure ASCII, every non-cookie-octet escaped in quotes" escape_table_safe, dump_value_safe, dump_value_inert
+                                                                          (SP: escape_table_full_false / _only_sp = F13b)
+  "never end the pair or smuggle attributes"                              dump_value_inert, attributes_exact(_full), quote_path_safe
+  "exactly the requested attributes, canonically spelled, fixed order"   attributes_exact_full, attr_order_table, samesite_*,
+                                                                          max_age_forms, expires_forms, domain_pipeline,
+                                                                          partitioned_implies_secure, max_size_warning_only
+  quantifier "sans-io and environ-level parser"                           cookie_roundtrip / environ_roundtrip, duplicates_*
+  quantifier "through the test client's jar"                              jar_reads_*, jar_history_roundtrip, jar_set_then_request,
+                                                                          domain_match_iff, path_match_iff, default_path_matches
+  anchors sansio/response.py                                              set_cookie_appends, set_cookie_parses_back,
+                                                                          delete_cookie_header, jar_delete_addresses_slot
 -/
-import WzVerif.Lemmas.Cookie
+import WzVerif.Lemmas.CookieHistory
 namespace Wz.Props.C13
 open Wz Wz.Cookie
 
@@ -104,43 +120,16 @@ theorem dump_value_safe (v out : List Char) (h : dumpValue v = .ok out) :
       obtain ⟨n, ⟨b, _, rfl⟩, rfl⟩ := ht
       exact token_table _ b.toNat_lt
 
-/-- a character that cannot end the pair or separate attributes: printable ASCII other than `;` `,` -/
-def inertChar (c : Char) : Bool := 0x20 ≤ c.toNat && c.toNat ≤ 0x7E && c != ';' && c != ','
+theorem inert_table : ∀ n, n < 256 → (escChars n).all inertChar = true := inert_table'
 
-theorem inert_table : ∀ n, n < 256 → (escChars n).all inertChar = true := by decide +kernel
+theorem octet_inert : ∀ n, n < 256 → cookieOctet n = true → inertChar (Char.ofNat n) = true := octet_inert'
 
-theorem octet_inert : ∀ n, n < 256 → cookieOctet n = true → inertChar (Char.ofNat n) = true := by
-  decide +kernel
-
-/-- Whatever the value, the emitted text is printable ASCII and contains neither `;` nor `,`:
-splitting the `Set-Cookie` header at `;` therefore always yields the pair first and then exactly the
-attributes `dump_cookie` appended (`dumpCookie` joins them in the fixed order Domain, Expires,
+/-- Whatever the value, the emitted text is printable ASCII and contains neither `;` nor `,`
+(`inertChar`): splitting the `Set-Cookie` header at `;` therefore always yields the pair first and then
+exactly the attributes `dump_cookie` appended (`dumpCookie` joins them in the fixed order Domain, Expires,
 Max-Age, Secure, HttpOnly, Path, SameSite, Partitioned). -/
 theorem dump_value_inert (v out : List Char) (h : dumpValue v = .ok out) :
-    out.all inertChar = true := by
-  by_cases hq : v.all noQuoteChar = true
-  · have : dumpValue v = .ok v := by simp [dumpValue, hq]
-    rw [this] at h
-    obtain rfl := Except.ok.inj h
-    apply List.all_eq_true.mpr
-    intro c hc
-    have hf := noQuoteChar_facts c (List.all_eq_true.mp hq c hc)
-    have hlt : c.toNat < 256 := by
-      have := hf.1
-      simp only [cookieOctet, Bool.or_eq_true, beq_iff_eq, Bool.and_eq_true, decide_eq_true_eq] at this
-      omega
-    have := octet_inert c.toNat hlt hf.1
-    simpa using this
-  · rw [dumpValue_quoted v (by simpa using hq)] at h
-    obtain rfl := Except.ok.inj h
-    simp only [List.cons_append, List.all_cons, List.all_append, List.all_nil, Bool.and_true,
-      List.all_flatMap, Bool.and_eq_true]
-    refine ⟨by decide, ?_, by decide⟩
-    apply List.all_eq_true.mpr
-    intro n hn
-    simp only [List.mem_map] at hn
-    obtain ⟨b, _, rfl⟩ := hn
-    exact inert_table _ b.toNat_lt
+    out.all inertChar = true := dumpValue_inert v out h
 
 example : (match dumpValue "a;b\"c é".toList with
     | .ok r => r == "\"a\\073b\\\"c \\303\\251\"".toList | .error _ => false) = true := by decide +kernel
@@ -149,17 +138,7 @@ example : (match dumpValue "a;b\"c é".toList with
 tokens) and every Unicode value, parsing the emitted pair as a request `Cookie` header (sans-io
 parser) returns exactly that name and value. -/
 theorem cookie_roundtrip (k v hv : List Char) (hk : ValidKey k) (h : dumpValue v = .ok hv) :
-    parseCookie (k ++ '=' :: hv) = [(k, v)] := by
-  obtain ⟨hm, hu⟩ := pair_facts k v hv hk h
-  have hcookie : (k ++ '=' :: hv).isEmpty = false := by cases k <;> simp
-  unfold parseCookie
-  rw [if_neg (by simp [hcookie])]
-  have hs : (k ++ '=' :: hv) ++ [';'] = k ++ '=' :: hv ++ ';' :: [] := by simp
-  have hm' := hm []
-  simp only [List.dropWhile] at hm'
-  rw [hs, findAll_single _ k hv hm' (by cases k <;> simp)]
-  simp only [postProcess, List.filterMap_cons, List.filterMap_nil, strip_key k hk.2, hu]
-  rw [if_neg (by cases k <;> simp_all [ValidKey])]
+    parseCookie (k ++ '=' :: hv) = [(k, v)] := pair_roundtrip k v hv hk h
 
 /-- the hypotheses of `cookie_roundtrip` are satisfiable, for a value that needs every kind of escape -/
 example : ValidKey "sid".toList ∧ ∃ hv, dumpValue "a;b\"c\\ é\x00".toList = .ok hv :=
@@ -171,60 +150,24 @@ parses back to exactly those names and values, in order: no value can end its pa
 neighbour or inject one. -/
 theorem jar_roundtrip (items : List (List Char × List Char × List Char)) (hne : items ≠ [])
     (h : ∀ it ∈ items, ValidKey it.1 ∧ dumpValue it.2.1 = .ok it.2.2) :
-    parseCookie (jarText (items.map fun it => (it.1, it.2.2))) = items.map fun it => (it.1, it.2.1) := by
-  have hl : (items.map fun it => (it.1, it.2.2)) ≠ [] := by cases items <;> simp_all
-  have hg : ∀ p ∈ (items.map fun it => (it.1, it.2.2)), ScanGood p := by
-    intro p hp
-    simp only [List.mem_map] at hp
-    obtain ⟨it, hit, rfl⟩ := hp
-    obtain ⟨hk, hd⟩ := h it hit
-    exact ⟨hk, (pair_facts it.1 it.2.1 it.2.2 hk hd).1⟩
-  have hnonempty : (jarText (items.map fun it => (it.1, it.2.2))).isEmpty = false := by
-    cases items with
-    | nil => exact absurd rfl hne
-    | cons it t =>
-      obtain ⟨hk, _⟩ := h it (by simp)
-      cases t <;> (simp only [List.map_cons, List.map_nil, jarText]; cases hkk : it.1 <;> simp_all [ValidKey])
-  unfold parseCookie
-  rw [if_neg (by simp [hnonempty])]
-  rw [findAll_jar _ hl hg _ (by
-    have := jarText_length (items.map fun it => (it.1, it.2.2))
-    simp only [List.length_append, List.length_cons, List.length_nil] at this ⊢
-    omega)]
-  clear hl hg hnonempty hne
-  induction items with
-  | nil => rfl
-  | cons it t ih =>
-    obtain ⟨hk, hd⟩ := h it (by simp)
-    have hu := (pair_facts it.1 it.2.1 it.2.2 hk hd).2
-    simp only [postProcess, List.map_cons, List.filterMap_cons, strip_key it.1 hk.2, hu]
-    rw [if_neg (by obtain ⟨hne', _⟩ := hk; cases hkk : it.1 <;> simp_all)]
-    simp only [List.cons.injEq, true_and]
-    exact ih (fun it' hit' => h it' (by simp [hit']))
+    parseCookie (jarText (items.map fun it => (it.1, it.2.2))) = items.map fun it => (it.1, it.2.1) :=
+  jarText_roundtrip items hne h
+
+example : ∃ items : List (List Char × List Char × List Char), items ≠ [] ∧
+    ∀ it ∈ items, ValidKey it.1 ∧ dumpValue it.2.1 = .ok it.2.2 :=
+  ⟨[("a".toList, "1".toList, "1".toList)], by simp, by
+    intro it hit
+    simp only [List.mem_singleton] at hit
+    subst hit
+    exact ⟨⟨by decide, by decide⟩, rfl⟩⟩
 
 /-- **Round trip through the environ-level parser** (`werkzeug.http.parse_cookie`, which first undoes
 the WSGI latin-1 tunnelling): for an ASCII name and every Unicode value the result is the same. -/
 theorem environ_roundtrip (k v hv : List Char) (hk : ValidKey k) (hka : asciiText k = true)
     (h : dumpValue v = .ok hv) :
-    parseCookieEnviron (k ++ '=' :: hv) = some [(k, v)] := by
-  have hascii : asciiText (k ++ '=' :: hv) = true := by
-    have hin := dump_value_inert v hv h
-    simp only [asciiText, List.all_append, List.all_cons, Bool.and_eq_true] at hka ⊢
-    refine ⟨hka, by decide, ?_⟩
-    apply List.all_eq_true.mpr
-    intro c hc
-    have := List.all_eq_true.mp hin c hc
-    simp only [inertChar, Bool.and_eq_true, decide_eq_true_eq] at this
-    simp only [decide_eq_true_eq]
-    omega
-  unfold parseCookieEnviron
-  rw [if_neg (by cases k <;> simp)]
-  have hd := dance_asciiText _ hascii
-  cases hl : Py.latin1Enc (k ++ '=' :: hv) with
-  | none => simp [hl] at hd
-  | some bs =>
-    simp only [hl, Option.map_some, Option.some.injEq] at hd ⊢
-    rw [hd, cookie_roundtrip k v hv hk h]
+    parseCookieEnviron (k ++ '=' :: hv) = some [(k, v)] := pair_roundtrip_env k v hv hk hka h
+
+example : ValidKey "sid".toList ∧ asciiText "sid".toList = true := ⟨⟨by decide, by decide⟩, by decide⟩
 
 /-! ## the attributes -/
 
@@ -244,84 +187,19 @@ theorem attributes_exact (key value h : List Char) (a : Attrs)
     ∃ hv ss, dumpValue value = .ok hv ∧ canonSameSite a.samesite = .ok ss ∧
       (ss = none ∨ ss = some "Strict".toList ∨ ss = some "Lax".toList ∨ ss = some "None".toList) ∧
       splitSemi h = (Py.latin1Dec (utf8Enc key) ++ '=' :: hv) :: attrParts a ss := by
-  unfold dumpCookie at hd
-  cases hss : canonSameSite a.samesite with
-  | error e => simp [hss] at hd
-  | ok ss =>
-    cases hdv : dumpValue value with
-    | error e => simp [hss, hdv] at hd
-    | ok hv =>
-      simp only [hss, hdv, Except.ok.injEq] at hd
-      have hcanon : ss = none ∨ ss = some "Strict".toList ∨ ss = some "Lax".toList ∨ ss = some "None".toList := by
-        unfold canonSameSite at hss
-        cases hs : a.samesite with
-        | none => simp [hs] at hss; exact Or.inl hss.symm
-        | some s =>
-          simp only [hs] at hss
-          split at hss
-          · rename_i hcond
-            simp only [Except.ok.injEq] at hss
-            simp only [Bool.or_eq_true, beq_iff_eq] at hcond
-            rcases hcond with (h1 | h2) | h3
-            · right; left; rw [← hss, h1]
-            · right; right; left; rw [← hss, h2]
-            · right; right; right; rw [← hss, h3]
-          · simp at hss
-      refine ⟨hv, ss, rfl, rfl, hcanon, ?_⟩
-      rw [← hd]
-      apply splitSemi_intercalate _ (by simp)
-      intro p hp c hc
-      simp only [List.mem_cons] at hp
-      rcases hp with rfl | hp
-      · -- the pair
-        simp only [List.mem_append, List.mem_cons] at hc
-        rcases hc with hc | rfl | hc
-        · exact hkey c hc
-        · decide
-        · have := List.all_eq_true.mp (dump_value_inert value hv hdv) c hc
-          simp only [inertChar, Bool.and_eq_true, bne_iff_ne, ne_eq] at this
-          exact this.1.2
-      · -- an attribute part
-        simp only [attrParts, List.mem_append] at hp
-        have kvcase : ∀ (k : String) (v : Option (List Char)), (∀ c ∈ k.toList, c ≠ ';') →
-            (∀ x, v = some x → ∀ c ∈ x, c ≠ ';') → p ∈ kvPart k v → c ≠ ';' := by
-          intro k v hk hv' hpk
-          unfold kvPart at hpk
-          cases v with
-          | none => simp at hpk
-          | some x =>
-            simp only [List.mem_singleton] at hpk
-            subst hpk
-            simp only [List.mem_append, List.mem_cons] at hc
-            rcases hc with hc | rfl | hc
-            · exact hk c hc
-            · decide
-            · exact hv' x rfl c hc
-        have flcase : ∀ (k : String) (b : Bool), (∀ c ∈ k.toList, c ≠ ';') → p ∈ flagPart k b → c ≠ ';' := by
-          intro k b hk hpk
-          unfold flagPart at hpk
-          split at hpk
-          · simp only [List.mem_singleton] at hpk; subst hpk; exact hk c hc
-          · simp at hpk
-        rcases hp with ((((((hp | hp) | hp) | hp) | hp) | hp) | hp) | hp
-        · exact kvcase "Domain" _ (by decide) hdom hp
-        · exact kvcase "Expires" _ (by decide) hexp hp
-        · refine kvcase "Max-Age" _ (by decide) ?_ hp
-          intro x hx
-          cases hm : a.maxAge with
-          | none => simp [hm] at hx
-          | some i => simp only [hm, Option.map_some, Option.some.injEq] at hx; subst hx; exact intText_no_semi i
-        · exact flcase "Secure" _ (by decide) hp
-        · exact flcase "HttpOnly" _ (by decide) hp
-        · exact kvcase "Path" _ (by decide) hpath hp
-        · refine kvcase "SameSite" _ (by decide) ?_ hp
-          intro x hx
-          rcases hcanon with h0 | h1 | h2 | h3
-          · simp [h0] at hx
-          · rw [h1] at hx; obtain rfl := Option.some.inj hx; decide
-          · rw [h2] at hx; obtain rfl := Option.some.inj hx; decide
-          · rw [h3] at hx; obtain rfl := Option.some.inj hx; decide
-        · exact flcase "Partitioned" _ (by decide) hp
+  obtain ⟨hv, ss, hdv, hss, rfl⟩ := dumpCookie_ok key value h a hd
+  have hcanon := canonSameSite_cases _ _ hss
+  refine ⟨hv, ss, hdv, hss, hcanon, ?_⟩
+  apply splitSemi_intercalate _ (by simp)
+  intro p hp c hc
+  simp only [List.mem_cons] at hp
+  rcases hp with rfl | hp
+  · simp only [List.mem_append, List.mem_cons] at hc
+    rcases hc with hc | rfl | hc
+    · exact hkey c hc
+    · decide
+    · exact dumpValue_no_semi value hv hdv c hc
+  · exact attrParts_no_semi a ss hcanon hdom hexp hpath p hp c hc
 
 /-- non-vacuity: a cookie with every attribute, and a value that tries to inject one -/
 example : (match dumpCookie "sid".toList "x; Secure".toList
@@ -339,6 +217,641 @@ example : jarText [("a".toList, "1".toList), ("sid".toList, "\"x\\073y\"".toList
 theorem cookie_roundtrip_concrete :
     parseCookie "a=1; sid=\"x\\073 Secure\"; z=2".toList =
       [("a".toList, "1".toList), ("sid".toList, "x; Secure".toList), ("z".toList, "2".toList)] := by
+  decide +kernel
+
+/-! ## regenerated facts about the glue (AST literals and live evaluations), pinned -/
+
+/-- `dump_cookie` emits its attributes from ONE loop over the literal tuple
+Domain, Expires, Max-Age, Secure, HttpOnly, Path, SameSite, Partitioned (skip `None`/`False`, bare name
+for `True`, `name=value` otherwise), joined with `"; "` — and the model's `attrParts` emits the same
+names in the same order. A reordered tuple, a renamed attribute or a changed loop body changes the
+regenerated term and this no longer checks. -/
+theorem attr_order_table :
+    Gen.CookieGlue.attrOrder = [("Domain", "domain"), ("Expires", "expires"), ("Max-Age", "max_age"),
+      ("Secure", "secure"), ("HttpOnly", "httponly"), ("Path", "path"), ("SameSite", "samesite"),
+      ("Partitioned", "partitioned")] ∧
+    Gen.CookieGlue.attrLoopBody = ["if v is None or v is False: continue",
+      "if v is True: buf.append(k) continue", "buf.append(f'{k}={v}')"] ∧
+    Gen.CookieGlue.joinSep = "; " ∧
+    (attrParts
+        { domain := some ['d'], expires := some ['e'], maxAge := some 1, secure := true,
+          httponly := true, path := some ['p'], samesite := none, partitioned := true }
+        (some ['s'])).map
+      (fun p => String.ofList (p.takeWhile (· != '='))) = Gen.CookieGlue.attrOrder.map (·.1) := by
+  decide +kernel
+
+/-- `dump_cookie` title-cases `samesite` and accepts exactly the set literal {Strict, Lax, None};
+the model accepts exactly those spellings. -/
+theorem samesite_table :
+    Gen.CookieGlue.sameSiteAccepted = ["Lax", "None", "Strict"] ∧ Gen.CookieGlue.sameSiteUsesTitle = true ∧
+    Gen.CookieGlue.sameSiteAccepted.all (fun w =>
+      match canonSameSite (some w.toList) with | .ok (some t) => t == w.toList | _ => false) = true := by
+  decide +kernel
+
+/-- The control flow of `dump_cookie` as modelled: the order of its top-level statements (path
+quoting, domain, timedelta, expires / sync_expires, samesite, partitioned, value quoting, assembly,
+join, size warning, return), the domain pipeline `partition(":")[0].lstrip(".").encode("idna")`,
+`int(max_age.total_seconds())`, `partitioned ⇒ secure`, nothing reassigns the joined header before
+it is returned (so the `max_size` branch can only warn), and the defaults of every parameter. -/
+theorem dump_cookie_shape :
+    Gen.CookieGlue.dumpStmts = ["if path is not None:", "if domain:", "if isinstance(max_age, timedelta):",
+      "if expires is not None:", "if samesite is not None:", "if partitioned:",
+      "if not _cookie_no_quote_re.fullmatch(value):", "buf = [f'{key.encode().decode('latin1')}={value}']",
+      "for k, v in (('Domain', domain), ('Expires', expires), ('Max-Age', max_age), ('Secure', secure), ('HttpOnly', httponly), ('Path', path), ('SameSite', samesite), ('Partitioned', partitioned)):",
+      "rv = '; '.join(buf)", "cookie_size = len(rv)", "if max_size and cookie_size > max_size:", "return rv"] ∧
+    Gen.CookieGlue.domainAssigns = ["domain.partition(':')[0].lstrip('.').encode('idna').decode('ascii')"] ∧
+    Gen.CookieGlue.maxAgeAssigns = ["int(max_age.total_seconds())"] ∧
+    Gen.CookieGlue.rvAssigns = ["rv = '; '.join(buf)"] ∧ Gen.CookieGlue.returns = ["return rv"] ∧
+    Gen.CookieGlue.partitionedSetsSecure = true ∧
+    Gen.CookieGlue.dumpDefaults = [("key", "<required>"), ("value", "''"), ("max_age", "None"),
+      ("expires", "None"), ("path", "'/'"), ("domain", "None"), ("secure", "False"), ("httponly", "False"),
+      ("sync_expires", "True"), ("max_size", "4093"), ("samesite", "None"), ("partitioned", "False")] := by
+  decide +kernel
+
+/-- `Response.set_cookie` is one statement `self.headers.add("Set-Cookie", dump_cookie(key, <every
+argument under its own name>, max_size=self.max_cookie_size))`; `Response.delete_cookie` is one
+statement `self.set_cookie(key, expires=0, max_age=0, path=, domain=, secure=, httponly=, samesite=,
+partitioned=)` — every attribute needed to address the cookie is forwarded (what `SetArgs.toDump` /
+`DeleteArgs.toSet` model). Dropping one keyword (say `samesite`) breaks this. -/
+theorem response_glue_table :
+    Gen.CookieGlue.setCookiePos = ["key"] ∧
+    Gen.CookieGlue.setCookieKw = [("value", "value"), ("max_age", "max_age"), ("expires", "expires"),
+      ("path", "path"), ("domain", "domain"), ("secure", "secure"), ("httponly", "httponly"),
+      ("max_size", "self.max_cookie_size"), ("samesite", "samesite"), ("partitioned", "partitioned")] ∧
+    Gen.CookieGlue.setCookieHeaderName = "'Set-Cookie'" ∧ Gen.CookieGlue.setCookieAddArity = 2 ∧
+    Gen.CookieGlue.setCookieAddKw = [] ∧ Gen.CookieGlue.setCookieSingleStatement = true ∧
+    Gen.CookieGlue.deleteCookiePos = ["key"] ∧
+    Gen.CookieGlue.deleteCookieKw = [("expires", "0"), ("max_age", "0"), ("path", "path"),
+      ("domain", "domain"), ("secure", "secure"), ("httponly", "httponly"), ("samesite", "samesite"),
+      ("partitioned", "partitioned")] ∧
+    Gen.CookieGlue.deleteCookieSingleStatement = true ∧
+    Gen.CookieGlue.setCookieDefaults = [("key", "<required>"), ("value", "''"), ("max_age", "None"),
+      ("expires", "None"), ("path", "'/'"), ("domain", "None"), ("secure", "False"), ("httponly", "False"),
+      ("samesite", "None"), ("partitioned", "False")] ∧
+    Gen.CookieGlue.deleteCookieDefaults = [("key", "<required>"), ("path", "'/'"), ("domain", "None"),
+      ("secure", "False"), ("httponly", "False"), ("samesite", "None"), ("partitioned", "False")] ∧
+    Gen.CookieGlue.maxCookieSize = 4093 := by
+  decide +kernel
+
+/-- The test client's jar as modelled: which attribute names `_from_response_header` looks up, how
+each `Cookie` field is computed from them, the statement order (partition at `;`, partition at `=`,
+first parsed pair, the `split(";")` loop, `uri_to_iri` of the path), the storage key
+`(domain, path, decoded_key)`, the request pair `key=value` joined with `"; "`, the
+delete-or-store branch, and the defaults of the client API (`domain="localhost"`, `path="/"`,
+`origin_only=True`). -/
+theorem jar_glue_table :
+    Gen.CookieGlue.jarParamNames = ["domain", "expires", "httponly", "max-age", "path", "samesite", "secure"] ∧
+    Gen.CookieGlue.jarFields = [("key", "key.strip()"), ("value", "value.strip()"),
+      ("decoded_key", "decoded_key"), ("decoded_value", "decoded_value"),
+      ("expires", "parse_date(params.get('expires'))"),
+      ("max_age", "int(params['max-age'] or 0) if 'max-age' in params else None"),
+      ("domain", "params.get('domain') or server_name"), ("origin_only", "'domain' not in params"),
+      ("path", "params.get('path') or path.rpartition('/')[0] or '/'"), ("secure", "'secure' in params"),
+      ("http_only", "'httponly' in params"), ("same_site", "params.get('samesite')")] ∧
+    Gen.CookieGlue.jarFromHeaderStmts.take 6 = ["header, _, parameters_str = header.partition(';')",
+      "key, _, value = header.partition('=')",
+      "decoded_key, decoded_value = next(parse_cookie(header).items())", "params = {}",
+      "for item in parameters_str.split(';'):", "if params.get('path'):"] ∧
+    Gen.CookieGlue.storageKeyReturn = ["return (self.domain, self.path, self.decoded_key)"] ∧
+    Gen.CookieGlue.toRequestHeaderReturn = ["return f'{self.key}={self.value}'"] ∧
+    Gen.CookieGlue.jarJoinSep = ["; "] ∧
+    Gen.CookieGlue.updateBranches = [["self._cookies.pop(cookie._storage_key, None)", "else",
+      "self._cookies[cookie._storage_key] = cookie"]] ∧
+    Gen.CookieGlue.clientSetDefaults = [("key", "<required>"), ("value", "''"), ("domain", "'localhost'"),
+      ("origin_only", "True"), ("path", "'/'"), ("**kwargs", "<kwargs>")] ∧
+    Gen.CookieGlue.clientDeleteDefaults = [("key", "<required>"), ("domain", "'localhost'"), ("path", "'/'")] ∧
+    Gen.CookieGlue.clientGetDefaults = [("key", "<required>"), ("domain", "'localhost'"), ("path", "'/'")] ∧
+    Gen.CookieGlue.clientSetCall = ["domain", "'/'", "dump_cookie(key, value, domain=domain, path=path, **kwargs)"] := by
+  decide +kernel
+
+/-- `http_date(0)` is the epoch in IMF-fixdate, `parse_date` reads it back as timestamp 0 (so the
+jar treats `delete_cookie`'s Expires as "delete"), and `uri_to_iri("/")` is `/`. -/
+theorem epoch_table :
+    Gen.CookieGlue.epochDate = "Thu, 01 Jan 1970 00:00:00 GMT" ∧
+    Gen.CookieGlue.epochDateParsesToEpoch = true ∧ Gen.CookieGlue.iriRootFixed = true := by decide
+
+/-- the model's `shouldDelete` is the live `Cookie._should_delete` on max_age ∈ {None,-1,0,1} ×
+expires ∈ {None, epoch, epoch+1}: only `max_age == 0` or an Expires at the epoch delete — a negative
+max_age or any other past date does not (this is what the code does; the property does not speak
+about expiry) -/
+theorem should_delete_table :
+    Gen.CookieGlue.shouldDeleteTable.all (fun r => shouldDelete r.1 r.2.1 == r.2.2) = true := by
+  decide +kernel
+
+/-- the model's `domainMatch` agrees with the live `Cookie._matches_request` on 7 × 2 × 7 cookie
+domain / origin_only / host combinations (exact, subdomain, look-alike suffix, leading and
+trailing dots) -/
+theorem domain_match_table :
+    Gen.CookieGlue.domainMatchTable.all
+      (fun r => domainMatch r.1.toList r.2.1 r.2.2.1.toList == r.2.2.2) = true := by
+  decide +kernel
+
+/-- the model's `pathMatch` agrees with the live `Cookie._matches_request` on 6 × 9 cookie path /
+request path combinations (prefix inside a segment, trailing slash, empty request path) -/
+theorem path_match_table :
+    Gen.CookieGlue.pathMatchTable.all (fun r => pathMatch r.1.toList r.2.1.toList == r.2.2) = true := by
+  decide +kernel
+
+/-! ## every attribute argument of `dump_cookie` -/
+
+/-- a `Lib` for the non-vacuity examples: no idna, `http_date` knows the epoch label only -/
+def exampleLib : Lib :=
+  ⟨fun _ => .error "UnicodeError",
+   fun l => if l == zeroLabel then .ok Gen.CookieGlue.epochDate.toList else .error "ValueError",
+   fun m => .ok ("@now+".toList ++ (toString m).toList), id,
+   fun s => if s == Gen.CookieGlue.epochDate.toList then some 0 else none⟩
+
+/-- **Path.** Whatever the `path` argument (spaces, `;`, quotes, controls, non-ASCII), the quoted
+Path consists of printable ASCII other than SP, `;`, `"` and `\` — over the live table
+`urllib.parse.quote(bytes([b]), safe=<dump_cookie's literal>)` for all 256 bytes, lifted to every
+string. No hypothesis about the path is needed in `attributes_exact_full`. -/
+theorem quote_path_safe (p : Str) : (quotePath p).all pathChar = true ∧ Gen.CookieGlue.quoteUpperHex = true :=
+  ⟨quotePath_chars p, by decide⟩
+
+/-- **Domain.** For an ASCII domain argument the emitted Domain is the argument with the port
+(everything from the first `:`) and leading dots removed — or `UnicodeError` when the idna codec's
+label rule (1–63 characters per label) refuses it; the result has no `:` and no leading dot and
+only characters of the argument. -/
+theorem domain_pipeline (lib : Lib) (d : Str) (hne : d ≠ []) (ha : isAsciiStr d = true) :
+    (resolveDomain lib (some d) = .ok (some (domainHost d)) ∨
+      resolveDomain lib (some d) = .error "UnicodeError") ∧
+    (∀ c ∈ domainHost d, c ≠ ':' ∧ c ∈ d) ∧ (domainHost d).head? ≠ some '.' := by
+  refine ⟨?_, fun c hc => ⟨domainHost_no_colon d c hc, domainHost_subset d c hc⟩, domainHost_head d⟩
+  have hha : isAsciiStr (domainHost d) = true := by
+    apply List.all_eq_true.mpr
+    intro c hc
+    exact List.all_eq_true.mp ha c (domainHost_subset d c hc)
+  cases d with
+  | nil => exact absurd rfl hne
+  | cons c t =>
+    simp only [resolveDomain]
+    rcases idnaEnc_ascii lib (domainHost (c :: t)) hha with h | h
+    · left; rw [h]; rfl
+    · right; rw [h]; rfl
+
+example : (match resolveDomain ⟨fun _ => .error "x", fun _ => .error "x", fun _ => .error "x", id, fun _ => none⟩
+    (some ".example.com:8080".toList) with
+    | .ok (some r) => r == "example.com".toList | _ => false) = true := by decide +kernel
+
+example : ".example.com:8080".toList ≠ [] ∧ isAsciiStr ".example.com:8080".toList = true := by decide
+
+/-- **Max-Age.** An `int` is emitted as it is (0 and negative included); a `timedelta` as its length
+in whole seconds, truncated towards zero — the day component counts. -/
+theorem max_age_forms (i us : Int) :
+    resolveMaxAge none = none ∧ resolveMaxAge (some (.int i)) = some i ∧
+    resolveMaxAge (some (.td us)) = some (us.tdiv 1000000) ∧
+    resolveMaxAge (some (.td 86400000000)) = some 86400 ∧ resolveMaxAge (some (.td (-1))) = some 0 ∧
+    resolveMaxAge (some (.td (-1500000))) = some (-1) ∧ resolveMaxAge (some (.td 2592000000000)) = some 2592000 :=
+  ⟨rfl, rfl, rfl, by decide, by decide, by decide, by decide⟩
+
+/-- **Expires.** A string is used verbatim; a datetime / timestamp goes through `http_date`; without
+`expires`, an Expires attribute is derived from `max_age` exactly when `sync_expires` is on; otherwise
+there is none. -/
+theorem expires_forms (lib : Lib) (s l : Str) (m : Int) (ma : Option Int) (sync : Bool) :
+    resolveExpires lib (some (.str s)) ma sync = .ok (some s) ∧
+    resolveExpires lib (some (.obj l)) ma sync = (lib.httpDate l).map some ∧
+    resolveExpires lib none (some m) true = (lib.syncDate m).map some ∧
+    resolveExpires lib none (some m) false = .ok none ∧
+    resolveExpires lib none none sync = .ok none :=
+  ⟨rfl, rfl, rfl, rfl, rfl⟩
+
+/-- **SameSite, any case → canonical spelling.** Every one of the 64 + 8 + 16 upper/lower-case
+spellings of `strict`, `lax`, `none` is accepted and emitted as `Strict` / `Lax` / `None`. -/
+theorem samesite_any_case :
+    (caseVariants "strict".toList).all (fun s => match canonSameSite (some s) with
+      | .ok (some t) => t == "Strict".toList | _ => false) = true ∧
+    (caseVariants "lax".toList).all (fun s => match canonSameSite (some s) with
+      | .ok (some t) => t == "Lax".toList | _ => false) = true ∧
+    (caseVariants "none".toList).all (fun s => match canonSameSite (some s) with
+      | .ok (some t) => t == "None".toList | _ => false) = true ∧
+    (caseVariants "strict".toList).length = 64 := by
+  decide +kernel
+
+/-- ... and nothing else is: whenever a `samesite` argument is accepted, it differs from the emitted
+word only in the case of its letters; everything else raises `ValueError`. -/
+theorem samesite_case_only (s t : Str) (h : canonSameSite (some s) = .ok (some t)) :
+    s.map Char.toLower = t.map Char.toLower ∧
+    (t = "Strict".toList ∨ t = "Lax".toList ∨ t = "None".toList) := by
+  have hc := canonSameSite_cases _ _ h
+  unfold canonSameSite at h
+  simp only at h
+  split at h
+  · simp only [Except.ok.injEq, Option.some.injEq] at h
+    subst h
+    refine ⟨(titleAscii_lower s).symm, ?_⟩
+    rcases hc with h0 | h1 | h2 | h3
+    · simp at h0
+    · exact Or.inl (Option.some.inj h1)
+    · exact Or.inr (Or.inl (Option.some.inj h2))
+    · exact Or.inr (Or.inr (Option.some.inj h3))
+  · simp at h
+
+example : canonSameSite (some "lAx".toList) = .ok (some "Lax".toList) ∧
+    canonSameSite (some "bogus".toList) = .error "ValueError" ∧
+    canonSameSite (some "lax ".toList) = .error "ValueError" := ⟨rfl, rfl, rfl⟩
+
+/-- **Partitioned implies Secure.** -/
+theorem partitioned_implies_secure (a : Attrs) (ss : Option Str) (h : a.partitioned = true) :
+    "Secure".toList ∈ attrParts a ss ∧ "Partitioned".toList ∈ attrParts a ss := by
+  have hm : ∀ k : String, k.toList ∈ flagPart k true := fun k => by simp [flagPart]
+  have hs : (a.secure || a.partitioned) = true := by simp [h]
+  unfold attrParts
+  rw [hs, h]
+  constructor
+  · exact List.mem_append_left _ (List.mem_append_left _ (List.mem_append_left _
+      (List.mem_append_left _ (List.mem_append_right _ (hm "Secure")))))
+  · exact List.mem_append_right _ (hm "Partitioned")
+
+example : ({ partitioned := true } : Attrs).partitioned = true := rfl
+
+/-- **max_size only warns.** The header `dump_cookie` returns does not depend on `max_size`; the
+warning fires iff `max_size` is non-zero and the header is longer. -/
+theorem max_size_warning_only (lib : Lib) (a : DumpArgs) (m : Int) :
+    dumpCookieFull lib { a with maxSize := m } =
+      (dumpCookieFull lib a).map (fun r => (r.1, sizeWarning m r.1)) ∧
+    (∀ h, sizeWarning 0 h = false) := ⟨dumpCookieFull_maxSize lib a m, fun _ => rfl⟩
+
+/-- **Exactly the requested attributes — on the real signature.** Whenever `dump_cookie(key, value,
+max_age, expires, path, domain, secure, httponly, sync_expires, max_size, samesite, partitioned)`
+returns, splitting the header at `; ` yields the pair followed by exactly `attrParts` of the
+normalised arguments: Domain = idna(host part), Expires as by `expires_forms`, Max-Age as by
+`max_age_forms`, Secure iff `secure or partitioned`, HttpOnly, Path = the quoted path, SameSite
+canonical, Partitioned — for EVERY value and EVERY path. Hypotheses only about text the application
+hands over verbatim (name, ASCII domain, expires string) and about the three opaque library results:
+none contains `;`. -/
+theorem attributes_exact_full (lib : Lib) (a : DumpArgs) (h : Str) (w : Bool)
+    (hd : dumpCookieFull lib a = .ok (h, w))
+    (hkey : ∀ c ∈ Py.latin1Dec (utf8Enc a.key), c ≠ ';')
+    (hdom : ∀ x, a.domain = some x → ∀ c ∈ x, c ≠ ';')
+    (hexp : ∀ s, a.expires = some (.str s) → ∀ c ∈ s, c ≠ ';')
+    (hidna : ∀ s y, lib.idna s = .ok y → ∀ c ∈ y, c ≠ ';')
+    (hdate : ∀ l y, lib.httpDate l = .ok y → ∀ c ∈ y, c ≠ ';')
+    (hsync : ∀ m y, lib.syncDate m = .ok y → ∀ c ∈ y, c ≠ ';') :
+    ∃ at' hv ss, resolveAttrs lib a = .ok at' ∧ dumpValue a.value = .ok hv ∧
+      canonSameSite a.samesite = .ok ss ∧
+      at'.path = a.path.map quotePath ∧ at'.maxAge = resolveMaxAge a.maxAge ∧
+      at'.secure = a.secure ∧ at'.httponly = a.httponly ∧ at'.partitioned = a.partitioned ∧
+      splitSemi h = (Py.latin1Dec (utf8Enc a.key) ++ '=' :: hv) :: attrParts at' ss := by
+  obtain ⟨at', hr, hdc, _⟩ := dumpCookieFull_ok lib a h w hd
+  obtain ⟨h1, h2, h3, h4, h5, h6, h7, h8⟩ := resolveAttrs_ok lib a at' hr
+  obtain ⟨hv, ss, hdv, hss, _, hsplit⟩ := attributes_exact a.key a.value h at' hdc hkey
+    (fun x hx => resolveDomain_no_semi lib a.domain x hdom hidna (by rw [h1, hx]))
+    (fun x hx => resolveExpires_no_semi lib a.expires _ _ x hexp hdate hsync (by rw [h2, hx]))
+    (fun x hx => by
+      rw [h4] at hx
+      cases hp : a.path with
+      | none => simp [hp] at hx
+      | some p => simp only [hp, Option.map_some, Option.some.injEq] at hx; subst hx; exact quotePath_no_semi p)
+  exact ⟨at', hv, ss, hr, hdv, by rw [← h7]; exact hss, h4, h3, h5, h6, h8, hsplit⟩
+
+/-- non-vacuity: the real signature with a timedelta, a port and leading dot in the domain, a path that
+tries to inject an attribute, sync_expires -/
+example : (match dumpCookieFull ⟨fun _ => .error "x", fun _ => .error "x", fun m => .ok ("@now+".toList ++ (toString m).toList), id, fun _ => none⟩
+      { key := "sid".toList, value := "x; Secure".toList, maxAge := some (.td 86400000001),
+        path := some "/a;Domain=evil".toList, domain := some ".example.com:80".toList, samesite := some "nONE".toList,
+        partitioned := true, maxSize := 10 } with
+    | .ok (h, w) => w && splitSemi h == ["sid=\"x\\073 Secure\"".toList, "Domain=example.com".toList,
+        "Expires=@now+86400".toList, "Max-Age=86400".toList, "Secure".toList, "Path=/a%3BDomain=evil".toList,
+        "SameSite=None".toList, "Partitioned".toList]
+    | .error _ => false) = true := by decide +kernel
+
+/-! ## `Response.set_cookie` / `Response.delete_cookie` -/
+
+/-- `Response.set_cookie` appends exactly one `Set-Cookie` header — the text `dump_cookie` returns
+for the same arguments with `max_size = max_cookie_size` — and leaves every other header alone. -/
+theorem set_cookie_appends (lib : Lib) (mcs : Int) (hs hs' : HeaderList) (a : SetArgs) (w : Bool)
+    (h : responseSetCookie lib mcs hs a = .ok (hs', w)) :
+    ∃ text, dumpCookieFull lib (a.toDump mcs) = .ok (text, w) ∧
+      hs' = hs ++ [("Set-Cookie".toList, text)] ∧ hasNewline text = false := by
+  unfold responseSetCookie at h
+  cases hd : dumpCookieFull lib (a.toDump mcs) with
+  | error e => simp [hd] at h
+  | ok r =>
+    obtain ⟨text, w'⟩ := r
+    simp only [hd, headersAdd] at h
+    by_cases hn : hasNewline text = true
+    · simp [hn, Except.map] at h
+    · simp only [hn, Bool.false_eq_true, if_false, Except.map, Except.ok.injEq, Prod.mk.injEq] at h
+      obtain ⟨h1, h2⟩ := h
+      subst h1 h2
+      exact ⟨text, rfl, rfl, by simpa using hn⟩
+
+/-- **The header `set_cookie` adds parses back to the value.** For a valid ASCII name and every
+Unicode value and every attribute combination: cutting the added header at its first `;` (what any
+user agent and the test client do) leaves `name=<emitted value>`, which both request-side parsers
+read back as exactly `(name, value)`. -/
+theorem set_cookie_parses_back (lib : Lib) (mcs : Int) (hs hs' : HeaderList) (a : SetArgs) (w : Bool)
+    (hk : ValidKey a.key) (hka : asciiText a.key = true)
+    (h : responseSetCookie lib mcs hs a = .ok (hs', w)) :
+    ∃ text, hs' = hs ++ [("Set-Cookie".toList, text)] ∧
+      parseCookie (partitionAt ';' text).1 = [(a.key, a.value)] ∧
+      parseCookieEnviron (partitionAt ';' text).1 = some [(a.key, a.value)] := by
+  obtain ⟨text, hd, rfl, _⟩ := set_cookie_appends lib mcs hs hs' a w h
+  refine ⟨text, rfl, ?_⟩
+  have hg := dumpCookieFull_goodHeader lib (a.toDump mcs) text w hk hka hd
+  obtain ⟨at', _, hdc, _⟩ := dumpCookieFull_ok lib (a.toDump mcs) text w hd
+  obtain ⟨hv, ss, hdv, _, rfl⟩ := dumpCookie_ok _ _ text at' hdc
+  have hdv : dumpValue a.value = .ok hv := hdv
+  show parseCookie (partitionAt ';' (List.intercalate "; ".toList
+      ((Py.latin1Dec (utf8Enc a.key) ++ '=' :: hv) :: attrParts at' ss))).1 = [(a.key, a.value)] ∧
+    parseCookieEnviron (partitionAt ';' (List.intercalate "; ".toList
+      ((Py.latin1Dec (utf8Enc a.key) ++ '=' :: hv) :: attrParts at' ss))).1 = some [(a.key, a.value)]
+  rw [key_dance_ascii a.key hka]
+  have hpair : ∀ c ∈ a.key ++ '=' :: hv, c ≠ ';' := by
+    intro c hcm
+    simp only [List.mem_append, List.mem_cons] at hcm
+    rcases hcm with hcm | rfl | hcm
+    · exact (valid_key_seps a.key hk).1 c hcm
+    · decide
+    · exact dumpValue_no_semi a.value hv hdv c hcm
+  rw [partition_header _ _ hpair]
+  exact ⟨pair_roundtrip a.key a.value hv hk hdv, pair_roundtrip_env a.key a.value hv hk hka hdv⟩
+
+example : ∃ hs', responseSetCookie ⟨fun _ => .error "x", fun _ => .error "x", fun _ => .error "x", id, fun _ => none⟩
+    4093 [] { key := "k".toList, value := "a;b".toList } = .ok (hs', false) := ⟨_, rfl⟩
+
+/-- **`delete_cookie` emits what addresses the cookie.** Its header is the empty value followed by
+exactly: Domain (if given), `Expires=<http_date(0)>`, `Max-Age=0`, Secure (if `secure` or
+`partitioned`), HttpOnly, Path, SameSite (canonical), Partitioned — the same attribute parts
+`set_cookie` writes for those arguments, plus the two that expire it. -/
+theorem delete_cookie_header (lib : Lib) (mcs : Int) (hs hs' : HeaderList) (a : DeleteArgs) (w : Bool)
+    (epoch : Str) (hepoch : lib.httpDate zeroLabel = .ok epoch)
+    (h : responseDeleteCookie lib mcs hs a = .ok (hs', w)) :
+    ∃ dom ss, resolveDomain lib a.domain = .ok dom ∧ canonSameSite a.samesite = .ok ss ∧
+      hs' = hs ++ [("Set-Cookie".toList, List.intercalate "; ".toList
+        ((Py.latin1Dec (utf8Enc a.key) ++ ['=']) ::
+          attrParts
+            { domain := dom, expires := some epoch, maxAge := some 0, secure := a.secure,
+              httponly := a.httponly, path := a.path.map quotePath, samesite := a.samesite,
+              partitioned := a.partitioned } ss))] := by
+  obtain ⟨text, hd, rfl, _⟩ := set_cookie_appends lib mcs hs hs' a.toSet w h
+  obtain ⟨at', hr, hdc, _⟩ := dumpCookieFull_ok lib _ text w hd
+  obtain ⟨h1, h2, h3, h4, h5, h6, h7, h8⟩ := resolveAttrs_ok lib _ at' hr
+  obtain ⟨hv, ss, hdv, hss, rfl⟩ := dumpCookie_ok _ _ text at' hdc
+  have e1 : (a.toSet.toDump mcs).domain = a.domain := rfl
+  have e2 : (a.toSet.toDump mcs).expires = some (.obj zeroLabel) := rfl
+  have e3 : (a.toSet.toDump mcs).maxAge = some (.int 0) := rfl
+  have e4 : (a.toSet.toDump mcs).path = a.path := rfl
+  have e5 : (a.toSet.toDump mcs).value = [] := rfl
+  have e6 : (a.toSet.toDump mcs).key = a.key := rfl
+  rw [e1] at h1
+  rw [e2, e3] at h2
+  simp only [resolveExpires, hepoch, Except.map, Except.ok.injEq] at h2
+  rw [e3] at h3
+  rw [e4] at h4
+  rw [e5] at hdv
+  have hv0 : hv = [] := by
+    have : dumpValue [] = .ok [] := rfl
+    rw [this] at hdv
+    exact (Except.ok.inj hdv).symm
+  subst hv0
+  have h7' : at'.samesite = a.samesite := h7
+  refine ⟨at'.domain, ss, h1, by rw [← h7']; exact hss, ?_⟩
+  have hat : at' =
+      { domain := at'.domain, expires := some epoch, maxAge := some 0, secure := a.secure,
+        httponly := a.httponly, path := a.path.map quotePath, samesite := a.samesite,
+        partitioned := a.partitioned } := by
+    cases at'
+    simp only [Attrs.mk.injEq] at *
+    exact ⟨trivial, h2.symm, h3, h5, h6, h4, h7, h8⟩
+  show hs ++ [("Set-Cookie".toList, List.intercalate "; ".toList
+      ((Py.latin1Dec (utf8Enc a.key) ++ ['=']) :: attrParts at' ss))] = _
+  rw [← hat]
+
+/-- non-vacuity: `delete_cookie("k", path="/a b", domain=".a.com:80", samesite="lax", partitioned=True)`
+through the executable model -/
+example : (∃ e, exampleLib.httpDate zeroLabel = .ok e) ∧
+    (match responseDeleteCookie exampleLib 4093 []
+        { key := "k".toList, path := some "/a b".toList, domain := some ".a.com:80".toList,
+          samesite := some "lax".toList, partitioned := true } with
+      | .ok (hs, _) => hs == [("Set-Cookie".toList,
+          "k=; Domain=a.com; Expires=Thu, 01 Jan 1970 00:00:00 GMT; Max-Age=0; Secure; Path=/a%20b; SameSite=Lax; Partitioned".toList)]
+      | .error _ => false) = true := by
+  constructor
+  · exact ⟨_, rfl⟩
+  · decide +kernel
+
+/-! ## the test client's jar -/
+
+/-- **The jar reads the pair back, whatever follows it.** For every `Set-Cookie` header that starts
+with a pair `dump_cookie` emitted for a valid ASCII name — followed by ANY attribute text — a cookie
+the jar builds from it has exactly the emitted raw pair and the original (name, value) as its
+decoded pair: the value can neither end the pair early nor leak into the attributes the jar sees. -/
+theorem jar_reads_pair (lib : Lib) (s p h : Str) (c : JarCookie) (hg : GoodHeader h)
+    (hc : fromResponseHeader lib s p h = .ok c) :
+    ∃ k v hv rest, h = k ++ '=' :: hv ++ rest ∧ dumpValue v = .ok hv ∧
+      c.key = k ∧ c.value = hv ∧ c.decodedKey = k ∧ c.decodedValue = v :=
+  (fromHeader_good lib s p h c hg hc).2
+
+example : GoodHeader "sid=\"a\\073b\"; Max-Age=x; Domain=evil".toList :=
+  ⟨"sid".toList, "a;b".toList, "\"a\\073b\"".toList, "; Max-Age=x; Domain=evil".toList,
+    ⟨by decide, by decide⟩, by decide, rfl, rfl, Or.inr ⟨_, rfl⟩⟩
+
+/-- ... and the jar accepts such a header (here with a Domain the value tried to fake: the jar sees
+only the real attribute) -/
+example : (match fromResponseHeader exampleLib "a.com".toList "/x/y".toList
+      "sid=\"a\\073 Domain=evil\"; Max-Age=5".toList with
+    | .ok c => c.decodedValue == "a; Domain=evil".toList && c.domain == "a.com".toList && c.originOnly
+        && c.path == "/x".toList && c.maxAge == some 5
+    | .error _ => false) = true := by decide +kernel
+
+/-- **The jar files a dumped cookie where the attributes say.** For a header `dump_cookie` produced
+(attribute texts free of `;` and surrounding blanks — guaranteed for Path by `quote_path_safe`):
+the cookie has the raw pair, the decoded pair, Max-Age as requested, the Domain attribute (else the
+request host, origin-only), the IRI form of the Path attribute (else the directory of the request
+path), Secure iff `secure or partitioned`, HttpOnly, the canonical SameSite. -/
+theorem jar_reads_dumped_header (lib : Lib) (server reqPath k v h : Str) (a : Attrs)
+    (hk : ValidKey k) (hka : asciiText k = true) (hc : CleanAttrs a)
+    (hd : dumpCookie k v a = .ok h) :
+    ∃ hv ss, dumpValue v = .ok hv ∧ canonSameSite a.samesite = .ok ss ∧
+      fromResponseHeader lib server reqPath h = .ok {
+        key := k, value := hv, decodedKey := k, decodedValue := v,
+        expires := a.expires.bind lib.parseDate, maxAge := a.maxAge,
+        domain := (truthy a.domain).getD server, originOnly := a.domain.isNone,
+        path := jarPath lib reqPath a.path,
+        secure := a.secure || a.partitioned, httpOnly := a.httponly, sameSite := ss } :=
+  fromHeader_dump lib server reqPath k v h a hk hka hc hd
+
+example : CleanAttrs { domain := some "a.com".toList, path := some (quotePath "/x y".toList) } :=
+  ⟨fun x hx => by simp only [Option.some.injEq] at hx; subst hx; exact ⟨by decide, by decide⟩,
+   fun x hx => by simp at hx,
+   fun x hx => by simp only [Option.some.injEq] at hx; subst hx; exact ⟨by decide +kernel, by decide +kernel⟩⟩
+
+/-- **Domain matching**: the request host equals the cookie's domain, or — only for a cookie that
+came with a `Domain` attribute — is a true subdomain `<anything>.<domain>` (so `xa.com` never matches
+`a.com`). -/
+theorem domain_match_iff (cd : Str) (oo : Bool) (sn : Str) :
+    domainMatch cd oo sn = true ↔ sn = cd ∨ (oo = false ∧ cd ≠ [] ∧ ∃ pre, sn = pre ++ '.' :: cd) :=
+  domainMatch_iff cd oo sn
+
+/-- **Path matching**: equal, or the cookie path is a prefix that ends on a segment boundary (`/a`
+covers `/a/b` but not `/ab`). -/
+theorem path_match_iff (cp rp : Str) :
+    pathMatch cp rp = true ↔
+      rp = cp ∨ ∃ rest, rp = cp ++ rest ∧ (cp.getLast? = some '/' ∨ rest.head? = some '/') :=
+  pathMatch_iff cp rp
+
+/-- the default path (directory of the request path) always covers the URL whose response set the cookie -/
+theorem default_path_matches (rp : Str) (h : rp.head? = some '/') : pathMatch (defaultPath rp) rp = true :=
+  defaultPath_matches rp h
+
+example : defaultPath "/a/b".toList = "/a".toList ∧ defaultPath "/a".toList = "/".toList ∧
+    defaultPath "".toList = "/".toList := by decide
+
+/-- **Round trip through the jar, over whole histories.** Start with an empty jar and let ANYTHING
+happen to it, in any order and number: responses from any hosts and paths whose `Set-Cookie` headers
+start with a dumped pair for a valid ASCII name (any attributes, including ones that delete or
+fail), `Client.set_cookie` calls, `Client.delete_cookie` calls. Then for every request the client
+sends, `Request.cookies` is exactly the list of decoded (name, value) pairs of the jar entries that
+match the request's host and path, in jar order — each value is the text some `set` dumped, none is
+cut, merged with a neighbour or invented. -/
+theorem jar_history_roundtrip (lib : Lib) (steps : List JarStep) (hs : ∀ st ∈ steps, GoodStep st) (s p : Str) :
+    (Jar.run lib steps).requestCookies s p =
+      ((Jar.run lib steps).matching s p).map (fun c => (c.decodedKey, c.decodedValue)) ∧
+    ∀ c ∈ (Jar.run lib steps).matching s p, dumpValue c.decodedValue = .ok c.value ∧ c.decodedKey = c.key :=
+  have hg := goodJar_run lib steps hs
+  ⟨requestCookies_good _ hg s p, fun c hc => by
+    unfold Jar.matching at hc
+    have := (List.mem_filter.mp hc).1
+    simp only [List.mem_map] at this
+    obtain ⟨e, he, rfl⟩ := this
+    exact ⟨(hg e he).2.2.2, (hg e he).2.2.1⟩⟩
+
+example : GoodStep (.response "a.com".toList "/".toList ["sid=\"a\\073b\"; Path=/".toList]) := by
+  intro h hh
+  simp only [List.mem_singleton] at hh
+  subst hh
+  exact ⟨"sid".toList, "a;b".toList, "\"a\\073b\"".toList, "; Path=/".toList,
+    ⟨by decide, by decide⟩, by decide, rfl, rfl, Or.inr ⟨_, rfl⟩⟩
+
+/-- a two-step history run through the executable model: set on `/a`, read on `/a/b`, not on `/ab` -/
+example :
+    let lib : Lib := ⟨fun _ => .error "x", fun _ => .error "x", fun _ => .error "x", id, fun _ => none⟩
+    let j := Jar.run lib [.response "a.com".toList "/".toList ["k=\"x\\073y\"; Path=/a".toList]]
+    j.requestCookies "a.com".toList "/a/b".toList = [("k".toList, "x;y".toList)] ∧
+    j.requestCookies "a.com".toList "/ab".toList = [] ∧
+    j.requestCookies "b.a.com".toList "/a".toList = [] := by decide +kernel
+
+/-- **A cookie a response sets comes back on the next request to the same URL.** The jar holds any
+good history; a response to `reqPath` on `server` sets `k = v` with `dump_cookie` (no Domain
+attribute, Path `/` or none, not expiring it): the next request to the same URL carries `(k, v)`. -/
+theorem jar_set_then_request (lib : Lib) (j : Jar) (hj : GoodJar j) (server reqPath k v h : Str) (a : Attrs)
+    (hk : ValidKey k) (hka : asciiText k = true) (hc : CleanAttrs a)
+    (hd : dumpCookie k v a = .ok h)
+    (hdom : a.domain = none) (hpath : a.path = none ∨ (a.path = some ['/'] ∧ lib.iri ['/'] = ['/']))
+    (hreq : reqPath.head? = some '/')
+    (hkeep : shouldDelete a.maxAge (a.expires.bind lib.parseDate) = false) :
+    (k, v) ∈ ((j.update lib server reqPath [h]).1).requestCookies server reqPath := by
+  obtain ⟨hv, ss, hdv, _, hf⟩ := fromHeader_dump lib server reqPath k v h a hk hka hc hd
+  simp only [Jar.update, hf]
+  refine put_then_request j _ hj ⟨hk, hka, rfl, hdv⟩ ?_ server reqPath ?_
+  · exact hkeep
+  simp only [JarCookie.matchesRequest, Bool.and_eq_true]
+  constructor
+  · rw [domainMatch_iff]; left; simp [hdom, truthy]
+  · rcases hpath with hp | ⟨hp, hi⟩
+    · simp only [hp, jarPath, truthy, Option.map_none]
+      exact defaultPath_matches reqPath hreq
+    · simp only [hp, jarPath, truthy, List.isEmpty_cons, Bool.false_eq_true, if_false, Option.map_some, hi]
+      rw [pathMatch_iff]
+      right
+      cases reqPath with
+      | nil => simp at hreq
+      | cons c r => simp at hreq; subst hreq; exact ⟨r, rfl, Or.inl rfl⟩
+
+/-- non-vacuity of `jar_set_then_request`: the default attributes (Path `/`), an empty jar -/
+example : GoodJar [] ∧ CleanAttrs {} ∧ exampleLib.iri ['/'] = ['/'] ∧
+    shouldDelete ({} : Attrs).maxAge (({} : Attrs).expires.bind exampleLib.parseDate) = false ∧
+    (∃ h, dumpCookie "k".toList "a b;c".toList {} = .ok h) :=
+  ⟨goodJar_nil,
+   ⟨fun x hx => by simp at hx, fun x hx => by simp at hx,
+    fun x hx => by simp only [Option.some.injEq] at hx; subst hx; exact ⟨by decide, by decide⟩⟩,
+   rfl, rfl, ⟨_, rfl⟩⟩
+
+/-- **`delete_cookie` addresses the slot `set_cookie` created.** Two headers for the same name whose
+resolved Domain and Path attributes agree — one storing, one with `Max-Age=0` (what
+`delete_cookie_header` shows `delete_cookie` emits) — received for the same request URL: after the
+second, `Client.get_cookie` finds nothing in that slot, whatever else the jar holds. And a cookie
+that was stored is found under `(domain, path, key)`. -/
+theorem jar_delete_addresses_slot (lib : Lib) (j : Jar) (server reqPath k v h h' : Str) (a a' : Attrs)
+    (hk : ValidKey k) (hka : asciiText k = true) (hc : CleanAttrs a) (hc' : CleanAttrs a')
+    (hd : dumpCookie k v a = .ok h) (hd' : dumpCookie k [] a' = .ok h')
+    (hdom : a'.domain = a.domain) (hpath : a'.path = a.path) (hma : a'.maxAge = some 0)
+    (hkeep : shouldDelete a.maxAge (a.expires.bind lib.parseDate) = false) :
+    (∃ c, clientGetCookie (j.update lib server reqPath [h]).1 k ((truthy a.domain).getD server)
+        (jarPath lib reqPath a.path) = some c ∧ c.decodedValue = v) ∧
+    clientGetCookie (j.update lib server reqPath [h, h']).1 k ((truthy a.domain).getD server)
+        (jarPath lib reqPath a.path) = none := by
+  obtain ⟨hv, ss, hdv, _, hf⟩ := fromHeader_dump lib server reqPath k v h a hk hka hc hd
+  obtain ⟨hv', ss', hdv', _, hf'⟩ := fromHeader_dump lib server reqPath k [] h' a' hk hka hc' hd'
+  constructor
+  · simp only [Jar.update, hf]
+    exact ⟨_, get_put_store j _ hkeep, rfl⟩
+  · simp only [Jar.update, hf, hf']
+    rw [hdom, hpath]
+    exact get_put_delete _ _ (by simp [JarCookie.shouldDelete, shouldDelete, hma])
+
+/-- set on `/a`, then `delete_cookie(path="/a")` from the same URL, through the executable model: the
+slot is empty again; a delete addressed to another path leaves it -/
+example :
+    let setH := "k=v; Path=/a".toList
+    let delH := "k=; Expires=Thu, 01 Jan 1970 00:00:00 GMT; Max-Age=0; Path=/a".toList
+    let delOther := "k=; Expires=Thu, 01 Jan 1970 00:00:00 GMT; Max-Age=0; Path=/".toList
+    (clientGetCookie (Jar.run exampleLib [.response "a.com".toList "/a/b".toList [setH]])
+        "k".toList "a.com".toList "/a".toList).isSome = true ∧
+    (clientGetCookie (Jar.run exampleLib [.response "a.com".toList "/a/b".toList [setH, delH]])
+        "k".toList "a.com".toList "/a".toList).isSome = false ∧
+    (clientGetCookie (Jar.run exampleLib [.response "a.com".toList "/a/b".toList [setH, delOther]])
+        "k".toList "a.com".toList "/a".toList).isSome = true := by decide +kernel
+
+/-! ## duplicate names on the request side -/
+
+/-- **Duplicates are all kept, in header order** — `jar_roundtrip` has no distinctness hypothesis:
+a `Cookie` header carrying the same name several times parses to every pair in order
+(`parse_cookie(..., cls=list)`); the property text does not say which one an application should
+see, the code gives all of them to a `MultiDict`: `cookies[name]` / `.get(name)` is the FIRST value
+in the header, `.getlist(name)` all of them in order. -/
+theorem duplicates_lookup (items : List (List Char × List Char × List Char)) (hne : items ≠ [])
+    (h : ∀ it ∈ items, ValidKey it.1 ∧ dumpValue it.2.1 = .ok it.2.2) (k : Str) :
+    cookiesGet (parseCookie (jarText (items.map fun it => (it.1, it.2.2)))) k =
+      (items.find? (·.1 == k)).map (·.2.1) ∧
+    cookiesGetList (parseCookie (jarText (items.map fun it => (it.1, it.2.2)))) k =
+      (items.filter (·.1 == k)).map (·.2.1) := by
+  rw [jarText_roundtrip items hne h]
+  unfold cookiesGet cookiesGetList
+  constructor
+  · induction items with
+    | nil => rfl
+    | cons it t ih =>
+      simp only [List.map_cons, List.find?_cons]
+      by_cases hk : (it.1 == k) = true
+      · simp [hk]
+      · have hk' : (it.1 == k) = false := by simpa using hk
+        simp only [hk']
+        cases t with
+        | nil => rfl
+        | cons it2 t2 => exact ih (by simp) (fun x hx => h x (by simp [hx]))
+  · induction items with
+    | nil => rfl
+    | cons it t ih =>
+      simp only [List.map_cons, List.filter_cons]
+      by_cases hk : (it.1 == k) = true
+      · simp only [hk, if_true, List.map_cons, List.cons.injEq, true_and]
+        cases t with
+        | nil => rfl
+        | cons it2 t2 => exact ih (by simp) (fun x hx => h x (by simp [hx]))
+      · have hk' : (it.1 == k) = false := by simpa using hk
+        simp only [hk', Bool.false_eq_true, if_false]
+        cases t with
+        | nil => rfl
+        | cons it2 t2 => exact ih (by simp) (fun x hx => h x (by simp [hx]))
+
+/-- duplicates through the executable model: all pairs in order, first wins for `get` -/
+theorem duplicates_concrete :
+    parseCookie "a=1; b=2; a=\"x\\073y\"".toList =
+      [("a".toList, "1".toList), ("b".toList, "2".toList), ("a".toList, "x;y".toList)] ∧
+    cookiesGet (parseCookie "a=1; b=2; a=3".toList) "a".toList = some "1".toList ∧
+    cookiesGetList (parseCookie "a=1; b=2; a=3".toList) "a".toList = ["1".toList, "3".toList] := by
   decide +kernel
 
 end Wz.Props.C13
